@@ -97,6 +97,9 @@ def run(ctx):
                 res = e2e.calculus_check(d, "C01", failing, src, {"fin": fin, "strict": strict, "func": fname}, what_prefix=f"[function {fname} of a {len(parts)}-function file] ")
                 outcome["file:" + res] = outcome.get("file:" + res, 0) + 1
                 recs.append(d)
+    # small scope, exhaustively (thorough) / a seeded sample of it (quick)
+    ssf, ssinfo = streams.small_scope_check(ctx, "C01", 1200)
+    failing += ssf
     if ctx.coq_ok:
         mism += e2e.coq_compare("c01", coq_cases)
         mism += e2e.coq_calculus_compare("c01", calc_cases)
@@ -109,13 +112,13 @@ def run(ctx):
     if recs and (dist["share_infinite"] > 0.9 or not any(streams.nontrivial(d) for d in recs)):
         mism.append("generator degenerate: " + str(dist))
     distinct = len({d["typed"].__repr__() for d in recs if streams.nontrivial(d)})
-    stats = {"evaluations": len(recs), "distinct_nontrivial": distinct,
+    stats = {"evaluations": len(recs) + 2 * ssinfo["programs"], "distinct_nontrivial": distinct,
              "rule": "generated C functions (assignments, +,-,*, unary/cast sugar, if/else, while, do-while, counted for, nested; biased sub-streams: "
                      "overwrite-then-loop, two loops, loops in both branches) x {fin} x {strict}; every result compared with the calculus on all 3^k "
                      "vectors; non-trivial = distinct typed function with >=1 site and a loop or branch",
              "samples": [progs[len(streams.CORPUS)][1] if len(progs) > len(streams.CORPUS) else progs[0][1], streams.CORPUS[5][1]],
              "outcomes": outcome, "distribution": dist, "coq_model_cases": len(coq_cases), "coq_calculus_cases": len(calc_cases),
-             "exceptions": nexc, "programs": len(progs), "multi_function_files": nfiles}
+             "exceptions": nexc, "programs": len(progs), "multi_function_files": nfiles, "small_scope": ssinfo}
     return {"failing": failing, "corr_mismatch": mism, "stats": stats}
 
 
